@@ -1,5 +1,7 @@
 (* Extraction for C19: the peel / connected-components model and the checkers run on real outputs. *)
 Require Extraction.
 Require Import ExtrOcamlBasic.
-From Adapt Require Import Dialect.PeelModel.
-Extraction "c19_model.ml" peel get_conncomps peel_okb conncomps_okb simple_graphb connectedb sort_nat.
+From Adapt Require Import Num.Qaux Dialect.PeelModel Dialect.TreeLayoutModel Dialect.PlanariseCheckModel.
+Extraction "c19_model.ml" peel get_conncomps peel_okb conncomps_okb simple_graphb connectedb sort_nat
+  tree_layout_ok overlapping_pairs box_of_centre Qred
+  planarise_ok present_b nocross_b chains_b meeting_pairs broken_chains.
